@@ -48,6 +48,10 @@ theorem wrap_fshape (X : Seg) (nrows ncols nbands bd : Nat) (o : ReaderOptions) 
     unfold rcShape
     cases o.transpose <;> simp [delAt]
 
+/-- the outermost segment refuses no normalised subscript when what lies below does not -/
+theorem wrap_total (w : Option Bool × List Nat × List Nat) (X : Seg) (hX : X.total = true) : (wrap w X).total = true := by
+  unfold wrap; cases w.1 <;> exact hX
+
 /-- the raw node below the outermost segment -/
 theorem wrap_below (w : Option Bool × List Nat × List Nat) (X : Seg) : below (wrap w X) = X := by
   unfold wrap; cases w.1 <;> rfl
@@ -97,7 +101,7 @@ theorem wrap_spec (X : Seg) (nrows ncols nbands bd : Nat) (o : ReaderOptions) (w
     have h2 := hc iq hw1
     obtain ⟨e0, e1, e2⟩ := insAx2 0 idx
     obtain ⟨f0, f1, f2⟩ := insAx2 1 idx
-    show ((Seg.cplx iq w.2.1 w.2.2 2 X).full Src.leaf Src.fill).get idx = _
+    show ((Seg.cplx (ordOf iq) w.2.1 w.2.2 2 X).full Src.leaf Src.fill).get idx = _
     rw [cplx_get]
     rw [one (insAx 2 0 idx) 0 e0 e1 (fun _ => ⟨by rw [e2]; rfl, by omega⟩),
         one (insAx 2 1 idx) 1 f0 f1 (fun _ => ⟨by rw [f2]; rfl, by omega⟩)]
